@@ -1608,8 +1608,7 @@ forward_query(int bind_fd, struct query *q)
 	char buf[64*1024];
 	int len;
 	struct fw_query fwq;
-	struct sockaddr_in *myaddr;
-	in_addr_t newaddr;
+	struct sockaddr_in dnsaddr;
 
 	len = dns_encode(buf, sizeof(buf), q, QR_QUERY, q->name, strlen(q->name));
 	if (len < 1) {
@@ -1623,16 +1622,18 @@ forward_query(int bind_fd, struct query *q)
 	fwq.id = q->id;
 	fw_query_put(&fwq);
 
-	newaddr = inet_addr("127.0.0.1");
-	myaddr = (struct sockaddr_in *) &(q->from);
-	memcpy(&(myaddr->sin_addr), &newaddr, sizeof(in_addr_t));
-	myaddr->sin_port = htons(bind_port);
+	/* The forwarding socket is IPv4; do not reuse the requester's address
+	   structure, which is a sockaddr_in6 for queries received over IPv6 */
+	memset(&dnsaddr, 0, sizeof(dnsaddr));
+	dnsaddr.sin_family = AF_INET;
+	dnsaddr.sin_addr.s_addr = inet_addr("127.0.0.1");
+	dnsaddr.sin_port = htons(bind_port);
 
 	if (debug >= 2) {
 		fprintf(stderr, "TX: NS reply \n");
 	}
 
-	if (sendto(bind_fd, buf, len, 0, (struct sockaddr*)&q->from, q->fromlen) <= 0) {
+	if (sendto(bind_fd, buf, len, 0, (struct sockaddr*)&dnsaddr, sizeof(dnsaddr)) <= 0) {
 		warn("forward query error");
 	}
 }
